@@ -16,7 +16,6 @@ from datamodel_code_generator.format import DatetimeClassType, PythonVersion, Py
 from datamodel_code_generator.imports import (
     IMPORT_ABC_MAPPING,
     IMPORT_ABC_SEQUENCE,
-    IMPORT_ABC_SET,
     IMPORT_DICT,
     IMPORT_FROZEN_SET,
     IMPORT_LIST,
@@ -384,7 +383,7 @@ class DataType(_BaseModel):
                 imports = (
                     *imports,
                     (self.is_list, IMPORT_ABC_SEQUENCE),
-                    (self.is_set, IMPORT_ABC_SET),
+                    (self.is_set, IMPORT_FROZEN_SET),
                     (self.is_dict, IMPORT_ABC_MAPPING),
                 )
             else:
